@@ -11,6 +11,18 @@ TRUST = ('TLC/SANY (and Apalache where named), the JSON bridge between TLC and t
          'guards the bridge. ')
 
 CHECKS = {
+    'C20': dict(
+        technique='TLA+ transition systems (spec/Files.tla): the checksum read loop (Read; invariants Tiled, WholeContent, OnlyLastShort) over every content length 0..200 x chunk size, and a file-system model over nested paths with ensure_tree / delete_if_exists / write_to_tempfile (Idempotent, StaysWellFormed) plus the errno filter table; real read calls observed through open() and validated by Trace_Files; every fs edge executed on a scratch directory; every errno injected',
+        category='model_checking',
+        text='TLC proves that the read loop feeds exactly the content (pieces tile [0, n), only the last is short) for 1005 (length, '
+             'chunk) pairs; compute_file_checksum is then run on real files of those and of the property\'s sizes (around every '
+             'multiple of 4096 / 65536 / 1 MiB, five algorithms) with the read() calls recorded through the file object and '
+             'validated as behaviours of Files!Read, and the digest compared with hashlib over the whole content. last_bytes is a '
+             'TLA+ function checked on sizes x n in {0,1,size-1,size,size+1,huge}. The 7-state file-system graph is explored to '
+             'depth 3 and each of its 189 edges is executed on a real directory (result, resulting tree, repeated call); every '
+             'errno in errno.errorcode is injected into makedirs / remove and must be swallowed or propagated as the table says.',
+        design_ref='6/C20',
+        note=TRUST + 'The digest function itself is hashlib on both sides.'),
     'C17': dict(
         technique='TLA+ model (spec/Versions.tla): dotted versions as base-1000 digit sequences with lexicographic order; PEP 440 versions as [epoch, release, pre, post, dev] records with the normative ordering as a TLA+ operator (Trichotomy / Antisymmetric / LexTotal and the PEP 440 landmark chain checked by TLC); CompatRef and PredRef; all enumerated cases rendered and executed against convert_version_to_int/_str/_tuple, is_compatible, VersionPredicate',
         category='model_checking',
